@@ -799,6 +799,11 @@ func (gen *Generator) GenerateAssignment(expr *SexpPair, assignPos int) error {
 		if err != nil {
 			return err
 		}
+		// each def leaves its value on the stack; the assignment
+		// as a whole is one expression, so keep only the last.
+		if i < len(rhs)-1 {
+			gen.AddInstruction(PopInstr(0))
+		}
 	}
 	return nil
 }
